@@ -205,7 +205,7 @@ def _builtin_corpus():
     for mode in MODES:
         t.append({"kind": "ds", "mode": mode, "thr": 0.1, "eps": 0.0, "eigh": False, "pi": 1, "T": T, "shapes": [[7]],
                   "block": 8, "graft": "RMSPROP_NORMALIZED", "variant": {"rank": 2}, "ndev": 2 if mode == "pmapq" else None,
-                  "npjit": 1 if mode == "sharded" else None, "defaults": False, "corpus": "c03_lowrank_eps0_nonfinite_root",
+                  "npjit": 1 if mode == "sharded" else None, "defaults": False, "corpus": "d26_c03_lowrank_eps0_nonfinite_root",
                   "histories": [{"kinds": ["ok"] * T, "target": "all", "gseed": 0},
                                 {"kinds": ["zero", "ok", "rank1", "ok"], "target": "all", "gseed": 1}]})
     return t
